@@ -43,7 +43,10 @@ GEN = {
     'g_struct': '\tcpu 8086\nrec\tstruct\na\tdb ?\nb\tdw ?\nrec\tendstruct\ninst\trec\n\tdw rec_len,inst_b\n',
     'g_warn': '\tcpu 8080\n\twarning "w"\n\tdb 1\n\tmessage "m"\n',
     'g_define': '\tcpu 8080\n\tifdef MODE\n\tdb MODE\n\telse\n\tdb 0\n\tendif\n',
+    # more INCLUDE statements (250 per pass, two passes) than the nesting limit allows levels: sequential includes are not nested
+    'g_manyinc': '\tcpu 8080\n\tjmp fwd\n' + '\tinclude "g_manyinc.inc"\n' * 250 + 'fwd:\tnop\n',
 }
+GENFILES = {'g_manyinc': {'g_manyinc.inc': '\tnop\n'}}
 
 
 def sources():
@@ -93,6 +96,8 @@ def setup(t, sub='src'):
     os.makedirs(d, exist_ok=True)
     if t in GEN:
         core.put(sub + '/' + t + '.asm', GEN[t])
+        for n, c in GENFILES.get(t, {}).items():
+            core.put(sub + '/' + n, c)
     else:
         corpus.prep(t, d)
     return d
